@@ -432,7 +432,7 @@ func TestLayerARandom(t *testing.T) {
 	t.Parallel()
 	id := wdEnter("layer A random")
 	defer wdLeave(id)
-	n := run.Pick(2500, 40000)
+	n := run.Pick(2000, 40000)
 	ch := make(chan *aCase, 256)
 	go func() {
 		for i := 0; i < n; i++ {
